@@ -428,6 +428,55 @@ fn run_sweep<T: Fl>(c: &SCase, lx: &mut Local) {
     });
 }
 
+fn run_extreme<T: Fl>(xd: &[u8], wd: &[u8], xs_tab: [f64; 6], ws_tab: [f64; 4], lx: &mut Local) {
+    let xs: Vec<T> = xd.iter().map(|&d| T::of(xs_tab[d as usize])).collect();
+    let ws: Vec<T> = wd.iter().map(|&d| T::of(ws_tab[d as usize])).collect();
+    let n = xs.len();
+    let (xr, wr) = (rats(&xs), rats(&ws));
+    let parts = fl::weighted_var_parts(&xr, &wr);
+    lx.single(|lx| {
+        let (ax, aw) = (Array1::from(xs.clone()), Array1::from(ws.clone()));
+        let mut obs = Vec::new();
+        for ddof in [0.0f64, 1.0] {
+            let denom = &parts.w_total - &Rat::from_f64(ddof);
+            if denom.is_zero() || denom.is_negative() {
+                lx.skip("weighted_var: total weight not above ddof (outside the domain)");
+                continue;
+            }
+            if denom.to_f64() < 64.0 * T::U * parts.w_total.to_f64() {
+                lx.skip("weighted_var: total weight within rounding distance of ddof (outside the domain)");
+                continue;
+            }
+            let want = &parts.s / &denom;
+            let wf = want.to_f64();
+            if !(wf.abs() < T::MAXF / 16.0) || !(parts.swx2.to_f64() < T::MAXF / 16.0) {
+                lx.skip("weighted_var: the exact value (or the weighted sum of squares) is not representable in the element type");
+                continue;
+            }
+            // the documented one-pass algorithm carries a running mean whose rounding error is relative to
+            // the largest magnitude it passes through, max|x|, however small that element's weight: the
+            // bound gets the term u * max|x| * sum w|x - mean| <= u * max|x| * sqrt(S * W)
+            let xmax = xs.iter().fold(0.0f64, |m, x| m.max(x.to_f64_().abs()));
+            // (plus the second-order term W * (u * max|x|)^2, which dominates when the heavy part has no spread)
+            let um = (n as f64 + 4.0) * T::U * xmax;
+            let stream = 8.0 * (um * (parts.s.to_f64_up_abs() * parts.w_total.to_f64()).sqrt() + um * um * parts.w_total.to_f64()) / denom.to_f64();
+            let b = var_bound::<T>(&parts, n, ddof) + stream;
+            match guarded(|| ax.weighted_var(&aw, T::of(ddof))) {
+                Ok(Ok(g)) => {
+                    let g = g.to_f64_();
+                    let e = err_of(g, &want);
+                    lx.ratio("weighted_var_extreme", e / b.max(f64::MIN_POSITIVE));
+                    lx.within(e, b, "C07/weighted-var-extreme", || format!("[{}] weighted_var of {:?} weights {:?} ddof {} = {:e}, exact {:e}, error {:e} > bound {:e}", T::NAME, xs, ws, ddof, g, wf, e, b));
+                    lx.check(g >= -b || !g.is_finite(), "C07/variance-negative", || format!("[{}] weighted_var of {:?} weights {:?} ddof {} = {:e} < -bound {:e}", T::NAME, xs, ws, ddof, g, b));
+                    obs.push(g.to_bits());
+                }
+                other => lx.fail("C07/weighted-var-failed", || format!("[{}] weighted_var of {:?} weights {:?} ddof {}: {:?}", T::NAME, xs, ws, ddof, other.map(|r| r.map(|x| x.to_f64_())))),
+            }
+        }
+        hash_of(&obs)
+    });
+}
+
 fn main() {
     let mut rep = Report::new("C07");
     rep.rule = "case = (data array over the alphabet, offset, element type) with weight vectors x ddof x orders x strides inside; n-D: (shape, axis, layout, weights stride, fill, ddof); non-trivial = length >= 2".into();
@@ -502,6 +551,95 @@ fn main() {
                 run_nd::<f64>(c, lx)
             } else {
                 run_nd::<f32>(c, lx)
+            }
+        },
+    );
+    // weights and distances many orders of magnitude apart: a light, far element next to heavy ones (the
+    // running weight sum absorbs the light weight completely), squares that overflow unless the weight is
+    // applied first
+    let xcases = (2..=3usize).flat_map(|n| sequences(n, 6).flat_map(move |xd| sequences(n, 4).flat_map(move |wd| { let xd = xd.clone(); (0..2u8).map(move |ty| (xd.clone(), wd.clone(), ty)) })));
+    rep.run_sub(
+        "extreme-weight-ratios",
+        "all data sequences of length 2..=3 over {0, 1, 3, +-BIG, HUGE} x all weight sequences over {TINY, SMALL, 1, LARGE} (f64: BIG 1e30, HUGE 1e200, weights 1e-100, 1e-20, 1, 1e20; f32: BIG 1e10, HUGE 2^70, weights 2^-60, 1e-10, 1, 1e10) x ddof {0, 1}: weighted_var / weighted_std against the exact value (cases whose exact value is not representable are skipped and counted), and the sign clause",
+        xcases,
+        |(xd, wd, ty), lx| {
+            lx.nontrivial(xd.iter().any(|&d| d != xd[0]));
+            if *ty == 0 {
+                run_extreme::<f64>(xd, wd, [0.0, 1.0, 3.0, 1e30, -1e30, 1e200], [1e-100, 1e-20, 1.0, 1e20], lx)
+            } else {
+                run_extreme::<f32>(xd, wd, [0.0, 1.0, 3.0, 1e10, -1e10, 1180591620717411303424.0], [8.673617379884035e-19, 1e-10, 1.0, 1e10], lx)
+            }
+        },
+    );
+    // one negative weight (the total stays positive, as does every running sum of the documented one-pass
+    // update): the definition still applies, term by term with its sign
+    let ncases_neg = (2..=4usize).flat_map(|n| sequences(n, 7).flat_map(move |xd| sequences(n, 3).flat_map(move |wd| { let xd = xd.clone(); (1..n).flat_map(move |pos| { let (xd, wd) = (xd.clone(), wd.clone()); [-0.25f64, -1.0].into_iter().map(move |neg| (xd.clone(), wd.clone(), pos, neg)) }) })));
+    rep.run_sub(
+        "negative-weight",
+        "all data sequences of length 2..=4 over the 7-value alphabet x all weight sequences over {0.25, 1, 3} with the weight at one position >= 1 replaced by -0.25 or -1 (kept when every prefix sum and the total minus ddof stay >= 0.25) x ddof {0, 0.5, 1} x f64/f32: weighted_var against the exact value of sum w (x - mean)^2 / (sum w - ddof), bound computed with |w|",
+        ncases_neg,
+        |(xd, wd, pos, neg), lx| {
+            lx.nontrivial(xd.iter().any(|&d| d != xd[0]));
+            let mut wv: Vec<f64> = wd.iter().map(|&d| [0.25, 1.0, 3.0][d as usize]).collect();
+            wv[*pos] = *neg;
+            let mut run = 0.0;
+            let mut ok = true;
+            for w in &wv {
+                run += w;
+                if run < 0.25 {
+                    ok = false;
+                }
+            }
+            if !ok {
+                lx.skip("negative-weight: a running weight sum is not positive (the one-pass update divides by it)");
+                return;
+            }
+            let xv: Vec<f64> = xd.iter().map(|&d| DATA[d as usize]).collect();
+            for ty in 0..2 {
+                let u = if ty == 0 { <f64 as Fl>::U } else { <f32 as Fl>::U };
+                // values are exactly representable in f32 as well, except 0.1 (rounded consistently below)
+                let (xs64, ws64): (Vec<f64>, Vec<f64>) = if ty == 0 { (xv.clone(), wv.clone()) } else { (xv.iter().map(|&x| x as f32 as f64).collect(), wv.clone()) };
+                let (xr, wr) = (rats(&xs64), rats(&ws64));
+                let parts = fl::weighted_var_parts(&xr, &wr);
+                let wabs: Vec<f64> = ws64.iter().map(|w| w.abs()).collect();
+                // |w|-weighted sums around the true mean for the bound
+                let mut s_abs = Rat::zero();
+                let mut swx2_abs = Rat::zero();
+                for (x, w) in xr.iter().zip(rats(&wabs).iter()) {
+                    let d = x - &parts.mean;
+                    s_abs = &s_abs + &(w * &(&d * &d));
+                    swx2_abs = &swx2_abs + &(w * &(x * x));
+                }
+                for ddof in [0.0f64, 0.5, 1.0] {
+                    let denom = &parts.w_total - &Rat::from_f64(ddof);
+                    if denom.to_f64() < 0.25 {
+                        lx.skip("negative-weight: total weight minus ddof below 0.25");
+                        continue;
+                    }
+                    let want = &parts.s / &denom;
+                    let n = xs64.len();
+                    let (sa, qa) = (s_abs.to_f64_up_abs(), swx2_abs.to_f64_up_abs());
+                    let b = 32.0 * (n as f64 + 4.0) * u * ((sa * qa).sqrt() * (1.0 + 1e-9) + sa) / denom.to_f64();
+                    lx.single(|lx| {
+                        let got = if ty == 0 {
+                            guarded(|| Array1::from(xs64.clone()).weighted_var(&Array1::from(ws64.clone()), ddof)).map(|r| r.map(|g| g))
+                        } else {
+                            guarded(|| Array1::from(xs64.iter().map(|&x| x as f32).collect::<Vec<f32>>()).weighted_var(&Array1::from(ws64.iter().map(|&w| w as f32).collect::<Vec<f32>>()), ddof as f32)).map(|r| r.map(|g| g as f64))
+                        };
+                        match got {
+                            Ok(Ok(g)) => {
+                                let e = err_of(g, &want);
+                                lx.ratio("weighted_var_negative_weight", e / b.max(f64::MIN_POSITIVE));
+                                lx.within(e, b, "C07/weighted-var-negative-weight", || format!("[{}] weighted_var of {:?} weights {:?} ddof {} = {:e}, exact {:e}, error {:e} > bound {:e}", if ty == 0 { "f64" } else { "f32" }, xs64, ws64, ddof, g, want.to_f64(), e, b));
+                                g.to_bits()
+                            }
+                            other => {
+                                lx.fail("C07/weighted-var-failed", || format!("weighted_var of {:?} weights {:?} ddof {}: {:?}", xs64, ws64, ddof, other));
+                                0
+                            }
+                        }
+                    });
+                }
             }
         },
     );
